@@ -548,6 +548,21 @@ class SequenceEncoder(AbstractItemEncoder):
                 # plain Python data compares as the value it stands for
                 component = default.clone(component)
 
+            if (isinstance(component, univ.SetOf) and
+                    isinstance(default, univ.SetOf)):
+                # a SET OF value is an unordered collection: the default
+                # written in another order is still the default
+                rest = list(default)
+                for member in component:
+                    for idx, other in enumerate(rest):
+                        if member == other:
+                            del rest[idx]
+                            break
+                    else:
+                        return False
+
+                return not rest
+
             return component == default
 
         except error.PyAsn1Error:
